@@ -98,6 +98,8 @@ func main() {
 		os.Exit(cmdRun(os.Args[2:]))
 	case "replay":
 		os.Exit(cmdReplay(os.Args[2:]))
+	case "crosscheck":
+		os.Exit(cmdCrosscheck(os.Args[2:]))
 	default:
 		fmt.Fprintln(os.Stderr, "unknown command", os.Args[1])
 		os.Exit(2)
@@ -750,5 +752,130 @@ func cmdReplay(args []string) int {
 		return 1
 	}
 	fmt.Println("replay: not reproduced on this tree")
+	return 0
+}
+
+
+// cmdCrosscheck re-runs the complete SMT dialogue of one worker (first shape of
+// every quick job of the property, at most -paths paths each) through z3 4.8.12
+// and cvc5 and compares the check-sat verdict sequences with z3 5.1.0's.
+func cmdCrosscheck(args []string) int {
+	fs := flag.NewFlagSet("crosscheck", flag.ExitOnError)
+	prop := fs.String("prop", "", "property id")
+	maxPaths := fs.Int("paths", 150, "paths per job")
+	fs.Parse(args)
+	var registry map[string]propSpec
+	data, err := os.ReadFile(filepath.Join(verifDir, "harness", "registry.json"))
+	if err != nil {
+		fmt.Fprintln(os.Stderr, err)
+		return 2
+	}
+	json.Unmarshal(data, &registry)
+	spec, ok := registry[*prop]
+	if !ok {
+		fmt.Fprintln(os.Stderr, "unknown property")
+		return 2
+	}
+	scratch, _ := os.MkdirTemp("", "gosymex-x-")
+	defer os.RemoveAll(scratch)
+	overlay, _, err := buildOverlay(scratch)
+	if err != nil {
+		fmt.Fprintln(os.Stderr, err)
+		return 2
+	}
+	pats := map[string]bool{}
+	for _, j := range spec.Quick {
+		pats[pkgPaths[j.Pkg]] = true
+	}
+	var patterns []string
+	for p := range pats {
+		patterns = append(patterns, p)
+	}
+	P, err := symex.Load(repoDir, repoPrefix, overlay, "verif", patterns...)
+	if err != nil {
+		fmt.Fprintln(os.Stderr, err)
+		return 2
+	}
+	logPath := filepath.Join(scratch, "dialogue.smt2")
+	lf, _ := os.Create(logPath)
+	known, _ := loadKnown()
+	var knownOpen []string
+	for _, k := range known {
+		if k.Status == "open" {
+			knownOpen = append(knownOpen, k.ID)
+		}
+	}
+	for _, j := range spec.Quick {
+		sh := []int{}
+		if len(j.Shapes) > 0 {
+			sh = j.Shapes[0]
+		}
+		cfg := symex.JobConfig{Harness: j.Harness, Pkg: pkgPaths[j.Pkg], Shape: sh, Workers: 1, SolverKind: "z3-new",
+			TimeoutMs: 20000, MaxPaths: *maxPaths, TickBound: 4, KnownOpen: knownOpen, PanicIsViol: spec.PanicIsViolation, SolverLog: lf}
+		if _, err := P.RunJob(cfg); err != nil {
+			fmt.Fprintln(os.Stderr, err)
+			return 2
+		}
+		// each job starts a fresh solver: separate the dialogues
+		fmt.Fprintln(lf, "(reset)")
+	}
+	lf.Close()
+	raw, _ := os.ReadFile(logPath)
+	var script []string
+	var ref []string
+	for _, line := range strings.Split(string(raw), "\n") {
+		if strings.HasPrefix(line, "; <- ") {
+			v := strings.TrimSpace(strings.TrimPrefix(line, "; <- "))
+			if v == "sat" || v == "unsat" || v == "unknown" {
+				ref = append(ref, v)
+			}
+			continue
+		}
+		script = append(script, line)
+	}
+	spath := filepath.Join(scratch, "script.smt2")
+	os.WriteFile(spath, []byte(strings.Join(script, "\n")+"\n(exit)\n"), 0o644)
+	run := func(name string, argv ...string) []string {
+		cmd := exec.Command(argv[0], append(argv[1:], spath)...)
+		out, _ := cmd.CombinedOutput()
+		var res []string
+		for _, l := range strings.Split(string(out), "\n") {
+			l = strings.TrimSpace(l)
+			if l == "sat" || l == "unsat" || l == "unknown" {
+				res = append(res, l)
+			}
+		}
+		return res
+	}
+	bad := 0
+	for _, s := range []struct {
+		name string
+		argv []string
+	}{
+		{"z3-4.8.12", []string{"z3", "-T:1800", "-t:20000"}},
+		{"cvc5-1.0", []string{"cvc5", "--incremental", "--lang=smt2", "--tlimit-per=20000"}},
+	} {
+		got := run(s.name, s.argv...)
+		dis, unk := 0, 0
+		n := len(ref)
+		if len(got) < n {
+			n = len(got)
+		}
+		for k := 0; k < n; k++ {
+			switch {
+			case got[k] == "unknown" || ref[k] == "unknown":
+				unk++
+			case got[k] != ref[k]:
+				dis++
+			}
+		}
+		fmt.Printf("CROSSCHECK property=%s solver=%s queries=%d answered=%d disagreements=%d unknown=%d\n", *prop, s.name, len(ref), len(got), dis, unk)
+		if dis > 0 || len(got) != len(ref) {
+			bad++
+		}
+	}
+	if bad > 0 {
+		return 1
+	}
 	return 0
 }
